@@ -343,6 +343,15 @@ func (sc *SpecCtx) call(x *SExpr) Val {
 		vv := sc.arr(smVVal, arr2Sort(SInt))
 		return mkBool(fmt.Sprintf("(forall ((%s Int)) (=> (select (select %s %s) %s) (and (= (select (select %s %s) %s) %s) (not (= (select (select %s %s) %s) 0)))))",
 			k, d, id, k, vt, id, k, e.typeTag(t), vv, id, k))
+	case "smKeysAre": // smKeysAre(m, T): every key of sync.Map m has dynamic type T
+		m := sc.eval(args[0])
+		t := sc.resolveType(sc.typeArg(args[1]))
+		id := st.smID(m)
+		e.counter++
+		k := q(fmt.Sprintf("kk$%d", e.counter))
+		d := sc.arr(smDom, "(Array Int (Array Int Bool))")
+		return mkBool(fmt.Sprintf("(forall ((%s Int)) (! (=> (select (select %s %s) %s) (= (pair_fst %s) %s)) :pattern ((select (select %s %s) %s))))",
+			k, d, id, k, k, e.typeTag(t), d, id, k))
 	case "smHas": // smHas(m, key): key is present in the sync.Map m
 		m, k := sc.eval(args[0]), sc.eval(args[1])
 		if len(k.C) == 1 {
